@@ -152,7 +152,9 @@ func enumShapes(full bool, yield func(Case) bool) {
 		"top:hyphen", "top:dotidx", "top:bracket", "top:nested", "top:tag", "top:goname",
 		"loop:struct", "loop:ptr", "loop:embed", "loop:embedptr", "vloop",
 		// variables named like default template functions; booleans written as comparisons
-		"top+funcname", "vloop+funcname", "top+cmp-seq", "top+cmp-sne", "top+cmp-eq", "top+cmp-ne", "loop+cmp-sne", "loop+cmp-seq"}
+		"top+funcname", "vloop+funcname", "top+cmp-seq", "top+cmp-sne", "top+cmp-eq", "top+cmp-ne", "loop+cmp-sne", "loop+cmp-seq",
+		// bool variables named like built-ins / template functions, each written next to a function call
+		"top+call-and", "top+call-or", "loop+call-and"}
 	for nElif := 0; nElif <= 3; nElif++ {
 		for _, hasElse := range []bool{false, true} {
 			spec := chainSpec{nElif: nElif, hasElse: hasElse, prefix: "m", vars: condNames[:4]}
@@ -497,6 +499,37 @@ func enumSlot(yield func(Case) bool) {
 	}
 }
 
+// ---------------------------------------------------------------- compact template-root components
+
+// enumComp yields includes (and shorthand tags) of component files whose root is a <template>
+// wrapper written compactly around one chain or one element, next to the spaced and the
+// unwrapped spelling of the same component: all must choose the same branch. Every component is
+// used twice per case (with the two conditions swapped) between plain siblings.
+func enumComp(yield func(Case) bool) {
+	for _, variant := range compVariantNames {
+		for _, short := range []bool{false, true} {
+			for assign := 0; assign < 4; assign++ {
+				for _, pl := range []string{"top", "div", "loop"} {
+					for _, sep := range []string{"", "wcw"} {
+						ref := refFor(pl)
+						spec := chainSpec{nElif: 1, vars: condNames[:4]}
+						body := []Node{plain("s0", ""),
+							{Kind: "comp", M: "x", Variant: variant, Short: short, Cond: ref("ca"), Cond2: ref("cb"), Sep: sep},
+							{Kind: "text", M: "t", Sep: sep},
+							{Kind: "comp", M: "y", Variant: variant, Short: short, Cond: ref("cb"), Cond2: ref("ca"), Sep: sep},
+							plain("s1", sep)}
+						c := place(pl, body, spec.values(assign), spec.values((assign+1)%4))
+						c.Entry = "file"
+						if !yield(c) {
+							return
+						}
+					}
+				}
+			}
+		}
+	}
+}
+
 // ---------------------------------------------------------------- family C (rapid)
 
 // specified values for condition variables: the documented part of the table.
@@ -612,7 +645,14 @@ func (g *nestGen) siblings(depth int, loopVars []string, lo, hi int) []Node {
 		if len(out) == 0 && depth == 0 {
 			sep = ""
 		}
-		switch k := rapid.IntRange(0, 28).Draw(g.t, "kind"); {
+		switch k := rapid.IntRange(0, 30).Draw(g.t, "kind"); {
+		case k >= 29:
+			// a component written compactly with a <template> root, its chain driven by two props
+			strip := func(c string) string { return strings.TrimPrefix(c, "!") }
+			out = append(out, Node{Kind: "comp", M: g.marker(), Sep: sep,
+				Variant: rapid.SampledFrom(compVariantNames).Draw(g.t, "variant"),
+				Short:   rapid.Bool().Draw(g.t, "short"),
+				Cond:    strip(g.cond(loopVars)), Cond2: strip(g.cond(loopVars))})
 		case k >= 26:
 			// non-whitespace text sibling (never between chain members: a chain is emitted whole)
 			out = append(out, Node{Kind: "text", M: g.marker(), Sep: sep, Interp: rapid.Bool().Draw(g.t, "interp")})
@@ -695,7 +735,7 @@ func genNest(rec *ev.Rec, open map[string]bool) func(*rapid.T) Case {
 		g := &nestGen{t: t, maxDepth: rapid.IntRange(2, 4).Draw(t, "maxdepth")}
 		c := Case{Vars: map[string]vals.V{}, Lists: map[string][]map[string]vals.V{}}
 		c.Form = rapid.SampledFrom([]string{"", "", "", "", "hyphen", "dotidx", "bracket", "nested", "tag", "goname",
-			"funcname", "funcname", "cmp-seq", "cmp-sne", "cmp-eq", "cmp-ne"}).Draw(t, "form")
+			"funcname", "funcname", "cmp-seq", "cmp-sne", "cmp-eq", "cmp-ne", "call-and", "call-or"}).Draw(t, "form")
 		g.bools = isCmp(c.Form)
 		boolsOnly = g.bools
 		c.Items = rapid.SampledFrom([]string{"", "", "struct", "ptr", "embed", "embedptr"}).Draw(t, "items")
